@@ -220,6 +220,20 @@ Section LocateMethods.
   Qed.
 End LocateMethods.
 
+(* a pandas-like oracle that answers every label of the index with its position and nothing else meets the spec *)
+Fixpoint enum_tbl (i : Z) (ls : list label) : list (label * loc) :=
+  match ls with [] => [] | x :: r => (x, LPos i true) :: enum_tbl (i + 1) r end.
+Lemma enum_tbl_lookup i x ls : tbl_lookup x (enum_tbl i ls) = option_map (fun p => LPos (i + Z.of_nat p) true) (pos x ls).
+Proof.
+  revert i; induction ls as [|y r IH]; intros i; simpl; [reflexivity|].
+  destruct (label_eqb y x); simpl; [do 2 f_equal; lia|].
+  rewrite IH. destruct (pos x r); simpl; [do 2 f_equal; lia | reflexivity].
+Qed.
+Lemma enum_tbl_spec ls : locate_spec ls (fun x => to_KeyError (tbl_get_loc (enum_tbl 0 ls) ls x)).
+Proof.
+  intros x. unfold tbl_get_loc. rewrite enum_tbl_lookup. destruct (pos x ls); simpl; [exists true; reflexivity | reflexivity].
+Qed.
+
 (* ================= Python slices with positive step ================= *)
 Lemma clip_id n i : 0 <= i <= n -> clip n i = i.
 Proof. intros H. unfold clip. replace (i <? 0) with false by lia. replace (n <? i) with false by lia. reflexivity. Qed.
@@ -605,3 +619,202 @@ Section Access.
       change (Z.of_nat 0) with 0. rewrite full_slice_positions by lia. apply gather_all.
   Qed.
 End Access.
+
+(* ================= every write path, every read path ================= *)
+Inductive wpath (V : Type) : Type :=
+| WLabel (x : label) (v : V)                               (* obj[name, label] = v *)
+| WSlice (a b : option label) (s : option Z) (w : operand V)   (* obj[name, a:b:s] = scalar or sequence *)
+| WPos (i : Z) (v : V)                                     (* obj.name[i] = v  /  obj[name][i] = v *)
+| WWhole (w : operand V) (new_id : Z).                     (* obj.name = scalar or sequence  /  obj[name] = ... *)
+Arguments WLabel {V}. Arguments WSlice {V}. Arguments WPos {V}. Arguments WWhole {V}.
+
+Definition do_write {V} (lc : label -> outcome loc) (st : cstate V) (name : string) (w : wpath V) : cstate V * outcome unit :=
+  match w with
+  | WLabel x v => set_item_with lc st name (KLabel x) (OScalar v)
+  | WSlice a b s o => set_item_with lc st name (KSlice a b s) o
+  | WPos i v => set_pos st name i v
+  | WWhole o id => set_whole st name o id
+  end.
+
+Section WriteRead.
+  Context {V : Type}.
+  Variable lc : label -> outcome loc.
+  Variable st : cstate V.
+  Variable name : string.
+  Variable sr : series V.
+  Let ls := span_labels (c_span st).
+  Let data := s_data sr.
+  Hypothesis Hspec : locate_spec ls lc.
+  Hypothesis Hvar : lookup name (c_vars st) = Some sr.
+  Hypothesis Hlen : length data = length ls.
+
+  Lemma assign_length (d : list V) ps w d' : assign d ps w = Ret d' -> length d' = length d.
+  Proof.
+    unfold assign. destruct w as [v|[|v [|v2 r]]]; intros H.
+    - inversion H. apply scatter1_length.
+    - destruct (Nat.eqb (length (@nil V)) (length ps)); inversion H. apply scatter_length.
+    - inversion H. apply scatter1_length.
+    - destruct (Nat.eqb (length (v :: v2 :: r)) (length ps)); inversion H. apply scatter_length.
+  Qed.
+
+  Lemma set_data_ok d' : length d' = length data ->
+    let st' := set_data st name sr d' in
+    c_span st' = c_span st /\ same_frame st st' name
+    /\ exists sr', lookup name (c_vars st') = Some sr' /\ s_data sr' = d' /\ s_dtype sr' = s_dtype sr /\ s_id sr' = s_id sr.
+  Proof.
+    intros HL st'. split; [reflexivity|]. split; [apply set_data_frame|].
+    exists (mkSeries (s_dtype sr) (s_id sr) d'). split; [apply set_data_lookup; exact Hvar|]. repeat split.
+  Qed.
+
+  (* a successful write through ANY path leaves a state of the same shape: same span, same frame, the
+     variable still there with a vector of the span's length and the same dtype *)
+  Theorem write_keeps_shape w st' :
+    do_write lc st name w = (st', Ret tt) ->
+    c_span st' = c_span st /\ same_frame st st' name
+    /\ exists sr', lookup name (c_vars st') = Some sr' /\ length (s_data sr') = length ls /\ s_dtype sr' = s_dtype sr.
+  Proof.
+    assert (K : forall d', length d' = length data ->
+              c_span (set_data st name sr d') = c_span st /\ same_frame st (set_data st name sr d') name
+              /\ exists sr', lookup name (c_vars (set_data st name sr d')) = Some sr' /\ length (s_data sr') = length ls /\ s_dtype sr' = s_dtype sr).
+    { intros d' HL. destruct (set_data_ok d' HL) as [A [B [sr' [C [D [E _]]]]]]. split; [exact A|]. split; [exact B|].
+      exists sr'. split; [exact C|]. split; [rewrite D, HL; exact Hlen | exact E]. }
+    destruct w as [x v|a b s o|i v|o id]; simpl; intros H.
+    - unfold set_item_with in H. destruct (lc x) as [l|e]; [|inversion H]. rewrite Hvar in H.
+      destruct l as [i fl|i j].
+      + fold data in H. destruct (py_set data i v) as [d|] eqn:E; inversion H; subst.
+        apply K. unfold py_set in E. destruct (py_pos (length data) i); inversion E. apply upd_length.
+      + fold data in H. simpl in H. inversion H; subst. apply K. apply scatter1_length.
+    - unfold set_item_with in H. destruct (resolve_slice_with lc (c_span st) a b s) as [[[i j] s']|e]; [|inversion H].
+      rewrite Hvar in H. fold data in H.
+      destruct (np_slice_positions (length data) i j s') as [ps|e]; simpl in H; [|inversion H].
+      destruct (assign data ps o) as [d|e] eqn:E; inversion H; subst. apply K. eapply assign_length; eauto.
+    - unfold set_pos in H. rewrite Hvar in H. fold data in H.
+      destruct (py_set data i v) as [d|] eqn:E; inversion H; subst.
+      apply K. unfold py_set in E. destruct (py_pos (length data) i); inversion E. apply upd_length.
+    - unfold set_whole in H. rewrite Hvar in H. destruct o as [v|vs].
+      + inversion H; subst. apply K. fold data. apply map_length.
+      + fold ls in H. destruct (Nat.eqb (length vs) (length ls)) eqn:E; inversion H; subst. apply Nat.eqb_eq in E.
+        simpl. split; [reflexivity|]. split.
+        * unfold same_frame; simpl. repeat split; try reflexivity; [apply replace_keys|].
+          intros k Hk. apply lookup_replace_other; exact Hk.
+        * exists (mkSeries (s_dtype sr) id vs). split; [apply lookup_replace_same; congruence|]. split; [exact E | reflexivity].
+  Qed.
+End WriteRead.
+
+(* write through any path, then read through every path: all reads return the one stored vector *)
+Theorem write_then_read_any_path {V} (lc : label -> outcome loc) (st st' : cstate V) name sr w :
+  locate_spec (span_labels (c_span st)) lc ->
+  lookup name (c_vars st) = Some sr ->
+  length (s_data sr) = length (span_labels (c_span st)) ->
+  do_write lc st name w = (st', Ret tt) ->
+  exists d' : list V,
+    length d' = length (span_labels (c_span st))
+    /\ get_attr st' name = Ret d' /\ get_key st' name = Ret d'
+    /\ (forall x p, pos x (span_labels (c_span st)) = Some p ->
+          exists v, nth_error d' p = Some v
+            /\ get_item_with lc st' name (KLabel x) = Ret (RScalar v)
+            /\ get_pos st' name (Z.of_nat p) = Ret v
+            /\ get_pos st' name (Z.of_nat p - Z.of_nat (length d')) = Ret v)
+    /\ (NoDup (span_labels (c_span st)) -> span_labels (c_span st) <> [] ->
+          get_item_with lc st' name (KSlice None None None) = Ret (RArr d'))
+    /\ same_frame st st' name.
+Proof.
+  intros Hspec Hvar Hlen Hw.
+  destruct (write_keeps_shape lc st name sr Hvar Hlen w st' Hw) as [Hsp [Hfr [sr' [Hv' [Hl' _]]]]].
+  exists (s_data sr'). split; [exact Hl'|].
+  assert (Hspec' : locate_spec (span_labels (c_span st')) lc) by (rewrite Hsp; exact Hspec).
+  assert (Hlen' : length (s_data sr') = length (span_labels (c_span st'))) by (rewrite Hsp; exact Hl').
+  destruct (read_paths_agree lc st' name sr' Hspec' Hv' Hlen') as [R1 [R2 [R3 R4]]].
+  rewrite Hsp in R3, R4.
+  split; [exact R1|]. split; [exact R2|]. split; [exact R3|]. split; [exact R4 | exact Hfr].
+Qed.
+
+(* what each write path stores (the d' of the theorem above) *)
+Theorem write_pos_effect {V} (st : cstate V) name sr i v p :
+  lookup name (c_vars st) = Some sr -> py_pos (length (s_data sr)) i = Some p ->
+  set_pos st name i v = (set_data st name sr (upd p v (s_data sr)), Ret tt).
+Proof. intros Hv Hp. unfold set_pos, py_set. rewrite Hv, Hp. reflexivity. Qed.
+Theorem write_pos_out_of_range {V} (st : cstate V) name sr i v :
+  lookup name (c_vars st) = Some sr -> py_pos (length (s_data sr)) i = None ->
+  set_pos st name i v = (st, Raise IndexError).
+Proof. intros Hv Hp. unfold set_pos, py_set. rewrite Hv, Hp. reflexivity. Qed.
+
+(* ================= label slices through eval() ================= *)
+Lemma py_slice_open_start n b s : py_slice_positions n None b s = py_slice_positions n (Some 0) b s.
+Proof. unfold py_slice_positions, py_slice_bounds. rewrite clip_id by lia. reflexivity. Qed.
+Lemma py_slice_open_stop n a s : py_slice_positions n a None s = py_slice_positions n a (Some (Z.of_nat n)) s.
+Proof. unfold py_slice_positions, py_slice_bounds. rewrite clip_id by lia. reflexivity. Qed.
+
+Section EvalAgree.
+  Context {V : Type}.
+  Variable lc : label -> outcome loc.
+  Variable st : cstate V.
+  Variable name : string.
+  Variable sr : series V.
+  Let ls := span_labels (c_span st).
+  Let data := s_data sr.
+  Hypothesis Hspec : locate_spec ls lc.
+  Hypothesis Hvar : lookup name (c_vars st) = Some sr.
+  Hypothesis Hlen : length data = length ls.
+  (* the lookup returns built-in ints (true of list.index, range.index, the repaired fallback; recorded for pandas) *)
+  Hypothesis Hint : forall x i fl, lc x = Ret (LPos i fl) -> fl = true.
+
+  Theorem eval_slice_agrees a b s pa pb :
+    NoDup ls -> start_pos ls a = Some pa -> stop_pos ls b = Some pb -> 0 < s ->
+    exists l, eval_slice_with lc st name a b s = Ret l
+           /\ get_item_with lc st name (KSlice a b (Some s)) = Ret (RArr l).
+  Proof.
+    intros ND Ha Hb Hs.
+    destruct (slice_get_exact lc st name sr Hspec Hvar Hlen a b (Some s) pa pb ND Ha Hb Hs) as [G _].
+    fold data in G. simpl step_of in G. eexists. split; [|exact G].
+    unfold eval_slice_with. rewrite Hvar. fold data.
+    assert (EA : match a with None => Ret None | Some x => bind (lc x) (fun l => Ret (Some (loc_start l))) end
+                 = Ret (match a with None => None | Some _ => Some (Z.of_nat pa) end)).
+    { destruct a as [x|]; [|reflexivity]. simpl in Ha. pose proof (Hspec x) as S. fold ls in S. rewrite Ha in S.
+      destruct S as [fl S]. rewrite S. reflexivity. }
+    assert (EB : match b with
+                 | None => Ret None
+                 | Some x => bind (lc x) (fun l => Ret (Some (match l with LSlice _ j => j | LPos i true => i + 1 | LPos i false => i end)))
+                 end = Ret (match b with None => None | Some _ => Some (Z.of_nat pb + 1) end)).
+    { destruct b as [y|]; [|reflexivity]. simpl in Hb. pose proof (Hspec y) as S. fold ls in S. rewrite Hb in S.
+      destruct S as [fl S]. rewrite (Hint y _ fl S) in S. rewrite S. reflexivity. }
+    unfold eval_slice_bounds. rewrite EA. simpl. rewrite EB. simpl.
+    replace (s <=? 0) with false by lia. f_equal. f_equal.
+    destruct a as [x|], b as [y|]; try reflexivity.
+    - apply stop_pos_open in Hb as [NE E]. rewrite py_slice_open_stop. subst pb. fold ls in Hlen.
+      replace (Z.of_nat (length ls - 1) + 1) with (Z.of_nat (length data)); [reflexivity|].
+      assert (0 < length ls)%nat by (clear - NE; destruct ls; [congruence | simpl; lia]). lia.
+    - apply start_pos_open in Ha as [NE E]. subst pa. rewrite py_slice_open_start. reflexivity.
+    - apply start_pos_open in Ha as [NE E]. apply stop_pos_open in Hb as [_ E2]. subst pa pb.
+      rewrite py_slice_open_start, py_slice_open_stop.
+      replace (Z.of_nat (length ls - 1) + 1) with (Z.of_nat (length data)); [reflexivity|].
+      assert (0 < length ls)%nat by (clear - NE; destruct ls; [congruence | simpl; lia]). lia.
+  Qed.
+End EvalAgree.
+
+(* ================= any locations, incl. slice-valued ones (pandas partial-string lookups) ================= *)
+(* start = the start of the first location, stop = the stop of the second if it is a slice, its position + 1 otherwise *)
+Theorem resolve_slice_general (lc : label -> outcome loc) (sp : span) (a b : label) (s : option Z) (la lb : loc) :
+  lc a = Ret la -> lc b = Ret lb ->
+  resolve_slice_with lc sp (Some a) (Some b) s
+  = Ret (match la with LSlice i _ => i | LPos i _ => i end,
+         match lb with LSlice _ j => j | LPos j _ => j + 1 end,
+         match s with Some z => z | None => 1 end).
+Proof. intros Ha Hb. unfold resolve_slice_with. simpl. rewrite Ha, Hb. simpl. destruct la, lb; reflexivity. Qed.
+
+Theorem slice_valued_get {V} (lc : label -> outcome loc) (st : cstate V) (name : string) (sr : series V) (a b : label) (s : Z) (la lb : loc) :
+  lookup name (c_vars st) = Some sr -> lc a = Ret la -> lc b = Ret lb -> 0 < s ->
+  get_item_with lc st name (KSlice (Some a) (Some b) (Some s))
+  = Ret (RArr (gather (s_data sr)
+                (py_slice_positions (length (s_data sr))
+                   (Some (match la with LSlice i _ => i | LPos i _ => i end))
+                   (Some (match lb with LSlice _ j => j | LPos j _ => j + 1 end)) s))).
+Proof.
+  intros Hv Ha Hb Hs. unfold get_item_with. rewrite Hv. rewrite (resolve_slice_general lc (c_span st) a b (Some s) la lb Ha Hb).
+  simpl. unfold np_slice_positions. replace (s =? 0) with false by lia. replace (0 <? s) with true by lia. reflexivity.
+Qed.
+(* a slice-valued location used as a plain label addresses the whole slice *)
+Theorem slice_valued_label_get {V} (lc : label -> outcome loc) (st : cstate V) (name : string) (sr : series V) (x : label) (i j : Z) :
+  lookup name (c_vars st) = Some sr -> lc x = Ret (LSlice i j) ->
+  get_item_with lc st name (KLabel x) = Ret (RArr (gather (s_data sr) (py_slice_positions (length (s_data sr)) (Some i) (Some j) 1))).
+Proof. intros Hv Hx. unfold get_item_with. rewrite Hv. simpl. rewrite Hx. reflexivity. Qed.
